@@ -82,7 +82,9 @@ func TestVerifExhaustive(t *testing.T) {
 	}
 	ev.Add("exhaustive_cases", done)
 	ev.Set("exhaustive_words", complete)
-	ev.Set("exhaustive_max_limit", maxLimit)
-	ev.Set("exhaustive_alphabet", len(exhAlphabet))
+	if si == 0 { // numeric extras are summed over shards by the driver
+		ev.Set("exhaustive_max_limit", maxLimit)
+		ev.Set("exhaustive_alphabet", len(exhAlphabet))
+	}
 	t.Logf("exhaustive: %d of %d cases in this shard", done, total)
 }
